@@ -4,7 +4,7 @@ encoded arguments; parser state fully reset between commands); totality by the t
 Tie: resp.ParseStream over readers that split the stream arbitrarily vs the model's parseLoop on the complete stream."""
 import random
 
-from .. import core, gen
+from .. import core, gen, servesuite
 
 
 def wellformed(rng, maxcmds=50):
@@ -80,6 +80,11 @@ def run(R, ctx):
             kind="impl-violates-spec", engine="parser", summary=mm[:400], lines=[" ".join(f[:3])] if f else [],
             explanation="the decoder's event list differs from the model's (proved to decode every well-formed pipeline exactly and to be total); "
                         "got=P means the process died (a panic in the parser goroutine cannot be recovered)", stderr=se))
+    # isolation: nothing of a malformed tail is executed, the offending connection is closed, other connections carry on
+    rule = R.rule
+    servesuite.run_serve_suite(R, ctx, "isolation", (80, 1500), "Protocol damage inside pipelines: the commands before it are answered, "
+                               "the connection is closed, nothing after it is executed (probed from another connection).", pubsub=False)
+    R.rule = rule + " Plus serve sessions: " + R.rule
     if ctx.broken and not d["mismatches"]:
         R.violation("proof-broken", dict(kind="proof-broken", broken=ctx.broken,
                                          summary="theorem(s) no longer check: " + ", ".join(t for t, _ in ctx.broken)), found_input=False)
